@@ -34,6 +34,7 @@ type Config struct {
 	SolverTimeoutMs int
 	Workers         int
 	MaxPaths        int
+	MaxWallS        int // wall-clock cap per harness run: exploration stops and the run is inconclusive (never a pass)
 	LockMonitor     bool // Eraser-style lock discipline monitor
 	FullSchemaLib   bool // initialise and interpret the schema library's packages too (concrete bodies only)
 	GlobalMonitor   bool // report stores to package-level state
@@ -103,6 +104,7 @@ type Report struct {
 	SolverTime    time.Duration
 	Wall          time.Duration
 	PathCapHit    bool
+	WallCapHit    bool
 	DomDecided    int
 	AssertPaths   int // feasible paths on which at least one assertion was evaluated
 	Notes         map[string]int
@@ -129,6 +131,7 @@ type Engine struct {
 	sharedGlobals map[*ssa.Global]*Val
 	sharedMu      sync.RWMutex
 	booted        bool
+	runStart      time.Time
 
 	// worklist
 	mu      sync.Mutex
@@ -700,6 +703,13 @@ func (eng *Engine) pop() *pending {
 			eng.stack = eng.stack[:n-1]
 			eng.active++
 			eng.started++
+			if eng.Cfg.MaxWallS > 0 && time.Since(eng.runStart) > time.Duration(eng.Cfg.MaxWallS)*time.Second {
+				eng.stop = true
+				eng.report.WallCapHit = true
+				eng.active--
+				eng.cond.Broadcast()
+				return nil
+			}
 			if eng.Cfg.MaxPaths > 0 && eng.started > eng.Cfg.MaxPaths {
 				eng.stop = true
 				eng.report.PathCapHit = true
@@ -806,6 +816,35 @@ func (eng *Engine) Run(cfg Config) (*Report, error) {
 	eng.intrMu.Unlock()
 	eng.tabulate = map[*ssa.Function]*tabulated{}
 	for _, name := range cfg.Tabulate {
+		if strings.HasSuffix(name, ".*") {
+			// every predicate-like method of the type: receiver and parameters all of that type, one
+			// boolean or integer result (a method added to the type later is summarised as well, instead
+			// of forking over the whole kind domain at every call)
+			prefix := strings.TrimSuffix(name, "*")
+			for fname, f := range all {
+				if !strings.HasPrefix(fname, prefix) || strings.Contains(fname[len(prefix):], "$") || f.Blocks == nil || f.Signature.Recv() == nil {
+					continue
+				}
+				rt := f.Signature.Recv().Type()
+				ok := f.Signature.Results().Len() == 1
+				if ok {
+					b, isB := f.Signature.Results().At(0).Type().Underlying().(*types.Basic)
+					ok = isB && b.Info()&(types.IsBoolean|types.IsInteger) != 0
+				}
+				if _, isBasic := rt.Underlying().(*types.Basic); !isBasic {
+					ok = false
+				}
+				for i := 0; ok && i < f.Signature.Params().Len(); i++ {
+					if !types.Identical(f.Signature.Params().At(i).Type(), rt) {
+						ok = false
+					}
+				}
+				if ok {
+					eng.tabulate[f] = &tabulated{fn: f}
+				}
+			}
+			continue
+		}
 		f := all[name]
 		if f == nil {
 			return nil, fmt.Errorf("tabulate target %q not found", name)
@@ -848,6 +887,7 @@ func (eng *Engine) Run(cfg Config) (*Report, error) {
 		return nil, err
 	}
 	start := time.Now()
+	eng.runStart = start
 	var wg sync.WaitGroup
 	var repMu sync.Mutex
 	var firstErr error
@@ -892,6 +932,9 @@ func (eng *Engine) Run(cfg Config) (*Report, error) {
 	rep.Wall = time.Since(start)
 	if firstErr != nil {
 		return nil, firstErr
+	}
+	if rep.WallCapHit {
+		rep.Inconclusive[fmt.Sprintf("wall-clock cap of %d s reached before the exploration finished (%d paths done)", cfg.MaxWallS, rep.Paths)]++
 	}
 	if rep.PathCapHit {
 		rep.Inconclusive[fmt.Sprintf("path cap %d reached", cfg.MaxPaths)]++
